@@ -90,6 +90,14 @@ def _fold_str(node: ast.AST, env: Dict[str, str]):
                 return getattr(base, m)(*args)
             if m in ("startswith", "endswith") and len(args) == 1:
                 return getattr(base, m)(*args)
+    if isinstance(node, ast.Call) and isinstance(node.func, ast.Name) and node.func.id == "len" and len(node.args) == 1 and not node.keywords:
+        v = _fold_str(node.args[0], env)
+        return len(v) if isinstance(v, str) else None
+    if isinstance(node, ast.IfExp):
+        c = _fold_str(node.test, env)
+        if isinstance(c, (bool, str)):
+            return _fold_str(node.body if c else node.orelse, env)
+        return None
     if isinstance(node, ast.UnaryOp) and isinstance(node.op, ast.Not):
         v = _fold_str(node.operand, env)
         return (not v) if isinstance(v, (bool, str)) else None
@@ -143,7 +151,52 @@ def recognise(arms, line: str):
                         return False
                 return True
 
-            run(a.body)
+            # what the arm hands on: the argument of an `.append(…)` / the last folded assignment
+            handed = []
+
+            def run2(stmts):
+                nonlocal extracted
+                for s in stmts:
+                    if isinstance(s, ast.Assign) and len(s.targets) == 1 and isinstance(s.targets[0], ast.Name):
+                        v = _fold_str(s.value, env)
+                        if not isinstance(v, str):
+                            return False
+                        env[s.targets[0].id] = v
+                        extracted = s.targets[0].id
+                    elif isinstance(s, ast.If):
+                        c = _fold_str(s.test, env)
+                        if c is True or (isinstance(c, str) and c):
+                            if run2(s.body) is False:
+                                return False
+                        elif c is False or c == "":
+                            if run2(s.orelse) is False:
+                                return False
+                        else:
+                            return False
+                    elif isinstance(s, ast.Expr) and isinstance(s.value, ast.Call) and isinstance(s.value.func, ast.Attribute) and s.value.func.attr == "append" and len(s.value.args) == 1:
+                        v = _fold_str(s.value.args[0], env)
+                        if not isinstance(v, str):
+                            return False
+                        handed.append(v)
+                    elif isinstance(s, (ast.Assign, ast.AugAssign, ast.AnnAssign)):
+                        v = _fold_str(s.value, env) if s.value is not None else None
+                        if isinstance(v, str):
+                            handed.append(v)
+                        elif any(isinstance(n, ast.Name) and n.id in env for n in ast.walk(s)):
+                            return False
+                    elif isinstance(s, ast.Expr):
+                        continue  # logging and the like
+                    else:
+                        return False
+                return True
+
+            env = {var: line}
+            extracted = None
+            complete = run2(a.body)
+            if handed:
+                return pfx.strip().rstrip(":"), handed[-1]
+            if complete is False and not extracted:
+                return ("?", None)
             return pfx.strip().rstrip(":"), (env.get(extracted) if extracted else None)
         else:
             # an arm that is not a prefix test (`if not line:`, `elif line == "":`): decided by folding it over the sample line
@@ -340,7 +393,7 @@ def check(P: Project, R: Report) -> None:
         if g is router:
             arg = call.args[0] if call.args else None
             t = subst_text(arg, st) if arg is not None else "?"
-            d = an.defs.get(t, ("", None))[1]
+            d = arg if isinstance(arg, ast.Dict) else an.defs.get(t, ("", None))[1]
             if isinstance(d, ast.Dict) and any(isinstance(k, ast.Constant) and k.value == "jsonrpc" for k in d.keys):
                 vals = {k.value: v for k, v in zip(d.keys, d.values) if isinstance(k, ast.Constant)}
                 kind = "error" if "error" in vals else "result"
@@ -352,7 +405,9 @@ def check(P: Project, R: Report) -> None:
             if s == "delivers":
                 return "deliver:" + g.name
             if s == "may-nothing":
-                return "maybe:" + g.name
+                # named by what it is, not by what it is called: the reader of a streamed body has an `async for`
+                role = "the streamed event-stream reader" if any(isinstance(n_, ast.AsyncFor) for n_ in walk_local(g.node)) else "the event-stream parser for a loaded body"
+                return "maybe:" + role
         return None
 
     def stmt_ev(stmt, st, an):
@@ -440,11 +495,23 @@ def check(P: Project, R: Report) -> None:
             R.ob("R1", f"fallback synthesis after {', '.join(sorted(set(maybes)))} (which may deliver nothing)", False, where,
                  f"[{label}] after POST: {acct}; an event-stream body that contains no response leaves the request without any terminal message")
         else:
-            R.ob("R1", f"request accounted for at {exit_construct(node)}", False, where, f"[{label}] after the POST the routine leaves with no delivery and no synthesis; the request never completes (it times out)")
+            R.ob("R1", f"request accounted for at {exit_construct(node)}", False, where, f"[{label}] after the POST the routine leaves with no delivery and no synthesis; the request never completes (it times out)" + (f" [events {acct}; literals {sorted(l[:60] for l in st.lits)[:14]}]" if os.environ.get("VERIF_DEBUG_C11") else ""))
     import re as _re
 
-    own = _re.compile(r"^message(_dict[·\w]*)?\.get\('id'\)$")
-    R.ob("R1", "synthesised messages carry the request's own id", bool(id_terms) and all(own.match(t) for t in id_terms), rel, f"id terms used in synthesised messages: {sorted(id_terms)}")
+    # the request's own id: `.get('id')` of the routine's message parameter or of the dict made from it
+    mp = [p_ for p_ in send.positional_params() if p_ != "self"][0]
+
+    def own(t: str) -> bool:
+        m_ = _re.match(r"^([\w·]+)\.get\('id'\)$", t)
+        if not m_:
+            return False
+        holder = m_.group(1)
+        if holder == mp:
+            return True
+        o = an.origin(holder)
+        return bool(_re.search(r"(^|[^\w.])" + _re.escape(mp) + r"($|[^\w])", o)) and not _re.search(r"\.get\(|\[", o.replace(f"{mp}.model_dump", ""))
+
+    R.ob("R1", "synthesised messages carry the request's own id", bool(id_terms) and all(own(t) for t in id_terms), rel, f"id terms used in synthesised messages: {sorted(id_terms)} (request parameter `{mp}`)")
     R.ob("R1", "some branch delivers the server's message", n_ok >= 1, rel, "")
     # exceptions escaping the routine altogether
     R.ob("R1", "no exception leaves the send routine", not any(t != "Cancelled" for _s, t, _n in out.exc), send.where, f"{sorted({(t, getattr(n, 'lineno', 0)) for _s, t, n in out.exc})}")
@@ -463,7 +530,9 @@ def check(P: Project, R: Report) -> None:
         if sets and dels:
             R.ob("R5", "the session id is recorded before the body is dispatched", min(sets) < min(dels), f"{rel}:{getattr(node, 'lineno', 0)}", f"{evs}")
         for i in sets:
-            R.ob("R5", "the recorded value is the response's mcp-session-id header", "response" in evs[i] and "mcp-session-id" in evs[i].lower(), f"{rel}", evs[i])
+            holder_ = _re.match(r"^setsid:([\w·]+)\.headers", evs[i])
+            from_post = bool(holder_) and ".post(" in an.origin(holder_.group(1))
+            R.ob("R5", "the recorded value is the response's mcp-session-id header", from_post and "mcp-session-id" in evs[i].lower(), f"{rel}", evs[i] + (f" (origin `{an.origin(holder_.group(1))[:60]}`)" if holder_ else ""))
 
     # ------------------------------------------------------------------ R2
     grammar_rule(P, R, A.MOD_HTTP, "R2", "")
@@ -507,8 +576,30 @@ def check(P: Project, R: Report) -> None:
                 a = ast.unparse(c.args[0])
                 if any(isinstance(n, ast.Call) and call_name(n) == "isinstance" and ast.unparse(n.args[0]) == a and "list" in ast.unparse(n.args[1]) for n in walk_local(f.node)):
                     callers_test = True
+    # … or on the value that is about to be validated (a work list instead of recursion: `item = work.pop(); if isinstance(item, list): …`)
+    varg = ast.unparse(val_calls[0].args[0]) if val_calls[0].args else ""
+    list_tests += [n for n in walk_local(router.node) if isinstance(n, ast.Call) and call_name(n) == "isinstance" and len(n.args) == 2 and ast.unparse(n.args[0]) == varg and "list" in ast.unparse(n.args[1])]
     R.ob("R3", "a JSON array body is split before the single-message validator", bool(list_tests) or callers_test, f"{router.module.rel}:{val_calls[0].lineno}",
          "response bodies go straight into JSONRPCMessage.model_validate: a batch array raises there, is logged and swallowed by the router, so none of its members is delivered")
+    if list_tests and not callers_test:
+        # path form: the validator is reached only with a value known not to be a list, and the list branch passes the members on
+        def rev(call, st, an):
+            if call_name(call).endswith(".model_validate") and call.args:
+                t = subst_text(call.args[0], st)
+                guarded = any(l.startswith(f"not isinstance({t}, ") and "list" in l for l in st.lits)
+                return ("validate:guarded:" if guarded else "validate:open:") + t
+            if call_name(call) == "isinstance" or is_benign_call(call):
+                return None
+            texts = [subst_text(a, st) for a in call.args] + [subst_text(call.func.value, st) if isinstance(call.func, ast.Attribute) else ""]
+            lists = [l[len("isinstance("):].split(",")[0] for l in st.lits if l.startswith("isinstance(") and "list" in l]
+            if any(x and (x in t_ or t_ in an.origin(x)) for t_ in texts for x in lists) or any(x and an.origin(t_).find(x) >= 0 for t_ in texts if t_ for x in lists):
+                return "members:" + call_name(call)
+            return None
+
+        ra, ro = run_paths(router.node, event_of=rev, fallible=False)
+        opens = sorted({e for st in list(ro.normal) + [s_ for s_, _n in ro.ret] for e in st.events if e.startswith("validate:open:")})
+        R.ob("R3", "the single-message validator is reached only with a value already known not to be a list", not opens, f"{router.module.rel}:{val_calls[0].lineno}",
+             f"a path reaches `{ast.unparse(val_calls[0])[:60]}` without having excluded a list ({opens[:1]})", sample="R3 validate(x) only under `not isinstance(x, list)`")
 
     # ------------------------------------------------------------------ R4
     loops = [(f, n) for f in meths.values() for n in walk_local(f.node) if isinstance(n, (ast.AsyncFor, ast.For)) and ("self." + stream_roles(P, ci)["outgoing_recv"]) in ast.unparse(n.iter)]
